@@ -27,7 +27,8 @@ DLine(l) ==
     LET k    == LeadLen(l, IndentToks)
         ind  == SubSeq(l, 1, k)
         rest == SubSeq(l, k + 1, Len(l))
-    IN IF rest[1] \in {"WS", "CR", "SH"} THEN mk("grey", <<>>, ind)      \* exotic indentation, indented '#'
+    IN IF rest[1] \in {"WS", "CR"} THEN mk("grey", <<>>, ind)            \* exotic indentation
+       \* (an indented '#' is neither a heading nor a bullet: "no bullet after the indentation", the next case)
        ELSE IF rest[1] \notin Bullets THEN mk("nobullet", <<>>, ind)
        ELSE LET t0 == Tail(rest)
                 t  == IF t0 # <<>> /\ t0[1] = "SP" THEN Tail(t0) ELSE t0
